@@ -214,6 +214,16 @@ func VerifTraceMatchers(c *Cmd, sink func(VerifMatchEvent)) {
 	}
 }
 
+// VerifParseTraced compiles the command's spec and matches args against it, reporting every call of
+// Matcher.Match the search makes to sink (what Run does for one level, without flows and help handling)
+func VerifParseTraced(c *Cmd, args []string, sink func(VerifMatchEvent)) error {
+	if err := c.doInit(); err != nil {
+		return err
+	}
+	VerifTraceMatchers(c, sink)
+	return c.fsm.Parse(args)
+}
+
 // verifRecord is one event of the harvest trace (VERIF_TRACE=<file>)
 type verifRecord struct {
 	Ev        string      `json:"ev"`
